@@ -7,6 +7,9 @@ Stage C  cxx/c14_harness.cc (compiled from $FE_REPO/src under ASan/UBSan) vs the
          return value and private state must be identical text.
 Stage D  the scan (`rtcmscan`, i.e. Cfg.run cfgRtcm) vs the callbacks of the real framer; decoded count; return
          values; callback pointer; sanitizer reports.
+         Requests `M ...` keep 2-3 framer objects alive in one process and interleave their operations; every framer is
+         judged on its own stream exactly like a lone one (model text, scan, direct statements) and against itself run
+         alone (signature C14/framer-depends-on-another-instance): framer objects share no state.
 """
 import json
 import os
@@ -158,6 +161,49 @@ def with_resets(rng, chunks):
     return ops
 
 
+def interleave(rng, counts):
+    """A random schedule over framers with `counts[i]` operations each: digit i = next operation of framer i.  Mostly
+    fine-grained alternation (runs of 1-3 operations), so that the framers are in the middle of frames at the same time."""
+    left = list(counts)
+    out = []
+    while any(left):
+        i = rng.choice([k for k, c in enumerate(left) if c])
+        r = min(left[i], rng.choice([1, 1, 1, 2, 3]))
+        out.append(str(i) * r)
+        left[i] -= r
+    return ''.join(out)
+
+
+def fine_chunks(rng, data):
+    """Divisions with boundaries inside frames: bytewise, small fixed blocks, random small pieces."""
+    how = rng.randrange(4)
+    if how == 0 and len(data) <= 700:
+        return [data[i:i + 1] for i in range(len(data))]
+    if how <= 1:
+        k = rng.choice([2, 3, 5, 6, 7, 11])
+        return [data[i:i + k] for i in range(0, len(data), k)]
+    parts, i = [], 0
+    while i < len(data):
+        k = rng.choice([1, 2, 3, 4, 5, 8, 13, 30, 100])
+        parts.append(data[i:i + k])
+        i += k
+    return parts
+
+
+def multi_case(j, rng, thorough):
+    """2-3 framers alive at once: different streams, capacities and buffer kinds, operations interleaved."""
+    n = rng.choice([2, 2, 2, 3])
+    parts, kinds_all = [], []
+    for _ in range(n):
+        cap = rng.choice(CAPS) if rng.random() < 0.8 else rng.randrange(6, 2049)
+        data, kinds = make_stream(rng, rng.choice([1, 2, 3, 4, 6]), cap, alphabet='VVVVZCTSNMHJXD')
+        ch = fine_chunks(rng, data)
+        ops = with_resets(rng, ch) if rng.random() < 0.25 else [c.hex() or '-' for c in ch]
+        parts.append((pick_spec(rng), cap, ops))
+        kinds_all.append(kinds)
+    j.add_multi(parts, interleave(rng, [len(o) for _, _, o in parts]), '+'.join(kinds_all))
+
+
 # ---- running the implementation ---------------------------------------------------------------------------------
 def compile_harness(ctx):
     exe = os.path.join(fv.BUILD, 'c14_harness')
@@ -271,19 +317,60 @@ class Judge:
     def add(self, spec, capacity, ops, tokens=''):
         self.pending.append({'spec': spec, 'capacity': capacity, 'ops': ops, 'tokens': tokens})
 
+    def add_multi(self, parts, sched, tokens=''):
+        """Several framer objects alive in one process, their operations interleaved as `sched` says (digit i = the
+        next operation of framer i).  parts = [(spec, capacity, ops)].  Each framer is judged exactly as if it were alone
+        (model, scan, direct statements), and its answer must equal that of the same framer run on its own."""
+        parts = [{'spec': sp, 'capacity': c, 'ops': list(o)} for sp, c, o in parts]
+        self.pending.append({'multi': {'parts': parts, 'sched': sched}, 'tokens': tokens})
+        for q in parts:   # the same framers, each alone in its request
+            self.pending.append(dict(q, tokens=tokens, companion=True))
+
     def run(self, exe):
         ctx = self.ctx
-        reqs = ['%s %d %s' % (p['spec'], p['capacity'], ','.join(p['ops']) or '=') for p in self.pending]
-        impl = run_harness(exe, reqs)
+
+        def single(q):
+            return '%s %d %s' % (q['spec'], q['capacity'], ','.join(q['ops']) or '=')
+        # requests to the harness (one per pending entry) and units (one per framer object)
+        hreqs, units = [], []
+        for n, p in enumerate(self.pending):
+            if 'multi' in p:
+                m = p['multi']
+                hreqs.append('M %d %s %s' % (len(m['parts']), m['sched'] or '-', ' '.join(single(q) for q in m['parts'])))
+                for k, q in enumerate(m['parts']):
+                    units.append((n, k, dict(q, tokens=p['tokens'], multi=dict(m, unit=k))))
+            else:
+                hreqs.append(single(p))
+                units.append((n, None, p))
+        hres = run_harness(exe, hreqs)
+        reqs = [single(p) for _, _, p in units]
         model = ctx.driver(['rtcm ' + r for r in reqs])
+        impl = []
+        alone = {}
+        for (n, k, p) in units:
+            ans, rep = hres[n]
+            if k is None:
+                impl.append((ans, rep))
+                if ans is not None and rep is None:
+                    alone[single(p)] = ans
+            else:
+                texts = ans.split('\t') if ans is not None else []
+                a = texts[k] if len(texts) == len(p['multi']['parts']) else None
+                if ans is not None and a is None:
+                    raise fv.InfraError('harness answered %d texts for %d framers: %s' % (len(texts), len(p['multi']['parts']), ans[:200]))
+                impl.append((a, rep if k == 0 else None))    # a sanitizer report is filed once per request
+                if a is None and k > 0:
+                    impl[-1] = (None, 'skip')
         scan_reqs, scan_idx = [], []
-        parsed = [None] * len(self.pending)
-        for i, (p, (ans, rep)) in enumerate(zip(self.pending, impl)):
+        parsed = [None] * len(units)
+        for i, ((n, k, p), (ans, rep)) in enumerate(zip(units, impl)):
             replay = dict(p)
+            if rep == 'skip':
+                continue
             if rep is not None:
                 kind = sanitizer_kind(rep)
-                ctx.violation('C14/sanitizer-' + kind, 'sanitizer report while running `%s %d` (%d operations): %s'
-                              % (p['spec'], p['capacity'], len(p['ops']), ' | '.join(x.strip() for x in rep.strip().split('\n')[:4])[:500]),
+                ctx.violation('C14/sanitizer-' + kind, 'sanitizer report while running `%s` (%d operations): %s'
+                              % (hreqs[n][:60], len(p['ops']), ' | '.join(x.strip() for x in rep.strip().split('\n')[:4])[:500]),
                               dict(replay, sanitizer_report=rep))
                 if any(r['st'][-1] for r in parse_records(model[i])):
                     ctx.count('model_fault_flag_set_on_sanitizer_report')
@@ -293,8 +380,18 @@ class Judge:
             if extra != 'ok':
                 ctx.violation('C14/' + extra.split(',')[0], 'harness complaint: ' + extra, replay)
             if text != model[i]:
-                ctx.disagree('framer != model for `%s %d`: impl=%s model=%s' % (p['spec'], p['capacity'], first_diff(text, model[i]),
-                                                                                  first_diff(model[i], text)), replay)
+                ctx.disagree('framer != model for `%s %d`%s: impl=%s model=%s'
+                             % (p['spec'], p['capacity'], '' if k is None else ' (framer %d of %d alive at the same time)' % (k, len(p['multi']['parts'])),
+                                first_diff(text, model[i]), first_diff(model[i], text)), replay)
+            if k is not None:
+                ctx.count('framers_run_next_to_another')
+                solo = alone.get(reqs[i])
+                if solo is not None and solo != ans:
+                    ctx.violation('C14/framer-depends-on-another-instance',
+                                  'framer %d of %d framers alive at the same time (`%s %d`, operations interleaved %s) answers %s; the same '
+                                  'framer with the same operations alone in the process answers %s'
+                                  % (k, len(p['multi']['parts']), p['spec'], p['capacity'], p['multi']['sched'][:40],
+                                     first_diff(ans, solo), first_diff(solo, ans)), replay)
             ctx.cov['traces_validated_against_impl'] += 1
             recs = parse_records(text)
             if len(recs) != len(p['ops']) + 1:
@@ -302,24 +399,24 @@ class Judge:
             segs = segments(p['spec'], p['capacity'], p['ops'], recs)
             if rep is None:
                 parsed[i] = segs
-            for k, sg in enumerate(segs):
+            for kk, sg in enumerate(segs):
                 if sg['has']:
                     scan_reqs.append('rtcmscan %d %s' % (sg['cap'], sg['data'].hex() or '-'))
-                    scan_idx.append((i, k))
+                    scan_idx.append((i, kk))
             self.direct_checks(p, recs, replay)
         scans = ctx.driver(scan_reqs)
-        for (i, k), sc in zip(scan_idx, scans):
+        for (i, kk), sc in zip(scan_idx, scans):
             if parsed[i] is None:
                 continue
-            self.oracle(self.pending[i], parsed[i][k], sc)
-        for i, p in enumerate(self.pending):
-            if parsed[i] is None:
+            self.oracle(units[i][2], parsed[i][kk], sc)
+        for i, (n, k, p) in enumerate(units):
+            if parsed[i] is None or p.get('companion'):
                 continue
             n_cb = sum(len(sg['cbs']) for sg in parsed[i])
             err = any(r['st'][6] for sg in parsed[i] for r in sg['recs'][-1:])
-            ctx.case(reqs[i], nontrivial=bool(n_cb) or err)
+            ctx.case(reqs[i] if k is None else '%d@%s' % (k, hreqs[n]), nontrivial=bool(n_cb) or err)
             ctx.count('callbacks', n_cb)
-            if n_cb and len(ctx.cov['samples']) < 4 and len(reqs[i]) < 400:
+            if n_cb and len(ctx.cov['samples']) < 4 and len(reqs[i]) < 400 and k is None:
                 ctx.sample({'request': reqs[i], 'impl_and_model': impl[i][0]})
         self.pending = []
 
@@ -468,9 +565,23 @@ def run(ctx, budget):
         for spec in ('i', 'u0', 'u1', 'u2', 'u3', 'n'):
             j.add(spec, cap, [(b'\xd3\x00' + z + b'\xd3\xd3' + z).hex(), 'R', z.hex()], 'tiny')
             j.add(spec, cap, [x.to_bytes(1, 'big').hex() for x in b'\xd3\xd3\x00\xd3\x00\x00' + z[3:]] + ['Bu%d:%d' % (cap % 4, 6 + cap % 5), z.hex()], 'tiny')
+    # several framers alive at once, fed alternately: frames with different message numbers and lengths, cut at every
+    # position of the header and inside the payload / CRC
+    a = [rtcm_msg(rng, m, n) for m, n in ((1005, 19), (1077, 60), (4095, 0), (1, 1), (1230, 2))]
+    b = [rtcm_msg(rng, m, n) for m, n in ((1006, 19), (1087, 33), (0, 2), (1127, 1), (1097, 8))]
+    sa, sb = b''.join(a), b'\xd3' + b''.join(b)
+    for k1, k2 in ((1, 1), (1, 3), (2, 5), (4, 4), (5, 1), (7, 6), (len(sa), len(sb))):
+        o1 = [sa[i:i + k1].hex() for i in range(0, len(sa), k1)]
+        o2 = [sb[i:i + k2].hex() for i in range(0, len(sb), k2)]
+        for s1, c1, s2, c2 in (('i', 1029, 'i', 1029), ('u1', 70, 'i', 48), ('u0', 2048, 'u3', 64)):
+            alt = ''.join('01' for _ in range(max(len(o1), len(o2))))
+            j.add_multi([(s1, c1, o1), (s2, c2, o2)], alt, 'alternating')
+            j.add_multi([(s1, c1, o1), (s2, c2, o2), ('u2', 31, o1)], interleave(rng, [len(o1), len(o2), len(o1)]), 'alternating3')
     j.run(exe)
     # random streams
     for it in range(budget):
+        if it % 4 == 0:
+            multi_case(j, rng, ctx.thorough)
         cap = rng.choice(CAPS) if rng.random() < 0.8 else rng.randrange(6, 2049)
         spec = pick_spec(rng)
         ntok = rng.choice([1, 2, 3, 4, 6, 9, 14])
@@ -504,7 +615,10 @@ def check(ctx):
                        'header, FusionEngine message, junk, reserved bits set, frame sized capacity-2..capacity+4} + a fixed corpus; x '
                        'chunkings (one call, bytewise, random cuts, fixed k, all (prefix,rest) pairs of short streams) x capacities 0..13 '
                        'exhaustively and 6..2048 sampled x buffer {internal, caller buffer at base+0..7 as exact-size heap block} x '
-                       'Reset()/SetBuffer()/WarnOnError() at random points; real framer under ASan/UBSan vs literal Lean model (text of '
+                       'Reset()/SetBuffer()/WarnOnError() at random points; + 2-3 framer objects alive in one process (different '
+                       'streams, capacities, buffer kinds), their operations interleaved (strict alternation and random runs of 1-3 '
+                       'operations; divisions bytewise / small blocks), each judged as if alone and compared with itself run alone; '
+                       'real framer under ASan/UBSan vs literal Lean model (text of '
                        'callbacks, return, private state per call) vs the scan Cfg.run cfgRtcm; non-trivial = a callback or an error '
                        'counted; distinct = distinct request line')
     ctx.assumptions += [
@@ -530,6 +644,10 @@ def replay(ctx, path):
     exe = compile_harness(ctx)
     table_check(ctx)
     j = Judge(ctx)
-    j.add(r['spec'], r['capacity'], r['ops'], r.get('tokens', ''))
+    if r.get('multi'):
+        m = r['multi']
+        j.add_multi([(q['spec'], q['capacity'], q['ops']) for q in m['parts']], m['sched'], r.get('tokens', ''))
+    else:
+        j.add(r['spec'], r['capacity'], r['ops'], r.get('tokens', ''))
     j.run(exe)
     return fv.finish(ctx, 'proof', None)
